@@ -36,7 +36,7 @@ func (o hostOp) String() string {
 	return o.K
 }
 
-var c14Pool = []string{"a.com", "b.com", "c.com", "d.com", "e.com", "f.com", "api.example.com", "{sub}.a.com", `{sub:\d+}.a.com`, "{sub:digit}.b.com", "{-s}.c.com", "::1"}
+var c14Pool = []string{"a.co", "a.com.cn", "a.com", "b.com", "c.com", "d.com", "e.com", "f.com", "api.example.com", "{sub}.a.com", `{sub:\d+}.a.com`, "{sub:digit}.b.com", "{-s}.c.com", "::1"}
 
 func c14Alphabet() []hostOp {
 	var ops []hostOp
@@ -48,7 +48,7 @@ func c14Alphabet() []hostOp {
 	for _, d := range c14Pool {
 		ops = append(ops, hostOp{K: "del", D: d})
 	}
-	ops = append(ops, hostOp{K: "del", D: "A.COM"}, hostOp{K: "del", D: "API.example.com"}, hostOp{K: "del", D: "{sub}.A.com"}, hostOp{K: "del", D: "zz.com"}, hostOp{K: "del", D: "com"},
+	ops = append(ops, hostOp{K: "del", D: "A.COM"}, hostOp{K: "del", D: "API.example.com"}, hostOp{K: "del", D: "{sub}.A.com"}, hostOp{K: "del", D: "zz.com"}, hostOp{K: "del", D: "com"}, hostOp{K: "del", D: "a."}, hostOp{K: "del", D: "{sub}."},
 		hostOp{K: "icpt"})
 	return ops
 }
